@@ -413,7 +413,6 @@ func TestVerif_C08_EntryPoints(t *testing.T) {
 	})
 }
 
-
 // Entry points, library internals only: everything SignHashed / GenerateKey / DerivePublic execute BELOW the sm2 package's own glue
 // (scalar multiplication, affine conversion, scalar-field decoding and inversion, comparisons) must be trace-identical for all secrets.
 func TestVerif_C08_EntryInternals(t *testing.T) {
